@@ -94,15 +94,31 @@ def LoopSpec (G : Nat → Prop) (E : ErrKind → Prop) (p : Prog) (gas : Nat) : 
     AtBase p B s.frames ip →
     ExecPost (fun fs' => B <+: fs' ∧ Good G fs' ∧ fs' ≠ []) E (exec p gas (.loop ip) s)
 
-/-- what `run_function` guarantees -/
+/-- what `run_function` guarantees (since `run_function` pops the call stack back to its entry
+    depth: it returns with exactly the call stack it was called on) -/
 def CallSpec (G : Nat → Prop) (E : ErrKind → Prop) (p : Prog) (gas : Nat) : Prop :=
   ∀ (f : Val) (s : VmState), Good G s.frames →
-    ExecPost (fun fs' => s.frames <+: fs' ∧ Good G fs') E (exec p gas (.call f) s)
+    ExecPost (fun fs' => fs' = s.frames ∧ Good G fs') E (exec p gas (.call f) s)
+
+theorem execPost_mono {Q Q' : List Frame → Prop} {E : ErrKind → Prop}
+    {r : VmState × Except RunErr (Option Val)} (h : ExecPost Q E r) (hq : ∀ fs, Q fs → Q' fs) :
+    ExecPost Q' E r := by
+  unfold ExecPost at h ⊢
+  split
+  · next heq => rw [heq] at h; exact hq _ h
+  · next heq => rw [heq] at h; exact h
+
+/-- the former (weaker) form of `CallSpec`: the call stack `run_function` returns with extends the
+    one it was called on -/
+theorem CallSpec.prefix {G : Nat → Prop} {E : ErrKind → Prop} {p : Prog} {gas : Nat}
+    (h : CallSpec G E p gas) (f : Val) (s : VmState) (hg : Good G s.frames) :
+    ExecPost (fun fs' => s.frames <+: fs' ∧ Good G fs') E (exec p gas (.call f) s) :=
+  execPost_mono (h f s hg) (fun fs h' => ⟨h'.1 ▸ List.prefix_refl _, h'.2⟩)
 
 include hc in
 theorem enterScript_cfi (gas : Nat) (ih : LoopSpec G E p gas) (s : VmState) (l : UInt32) (ar : Nat)
     (c : Option Nat) (hg : Good G s.frames) :
-    ExecPost (fun fs' => s.frames <+: fs' ∧ Good G fs') E (enterScript p gas s l ar c) := by
+    ExecPost (fun fs' => fs' = s.frames ∧ Good G fs') E (enterScript p gas s l ar c) := by
   unfold enterScript
   split
   · exact execPost_failAt _ _ (ErrClass.calm (calm_of_plain rfl))
@@ -113,7 +129,7 @@ theorem enterScript_cfi (gas : Nat) (ih : LoopSpec G E p gas) (s : VmState) (l :
   split
   · exact execPost_failAt _ _ (ErrClass.calm (calm_of_plain rfl))
   split
-  · exact execPost_failAt _ _ (ErrClass.calm (calm_of_plain rfl))
+  · exact (ErrClass.calm (calm_of_plain rfl) : E .callStackOverflow)
   generalize hfr : ({ src := pos, dst := p.bytecode.size - 1, stackOffset := s.stack.count - ar, closure := c } : Frame) = fr
   have hdst : fr.dst = p.bytecode.size - 1 := by rw [← hfr]
   have hB : BaseExit p (s.frames ++ [fr]) := by
@@ -138,9 +154,8 @@ theorem enterScript_cfi (gas : Nat) (ih : LoopSpec G E p gas) (s : VmState) (l :
   | ok v =>
     obtain ⟨⟨u, hu⟩, hg', _⟩ := key
     dsimp only at hu hg' ⊢
-    refine ⟨?_, good_dropLast hg'⟩
-    rw [← hu]
-    exact prefix_dropLast_of_concat fr
+    refine ⟨?_, fun f hf => hg' f (List.mem_of_mem_take hf)⟩
+    rw [← hu, List.append_assoc, List.take_left' rfl]
 
 include hc in
 /-- **control-flow integrity of the dispatch loop and of `run_function`**, by induction on the fuel -/
@@ -155,7 +170,7 @@ theorem exec_cfi : ∀ gas, LoopSpec G E p gas ∧ CallSpec G E p gas := by
       rw [exec_zero]; exact ExecErr.gas
   | succ gas ih =>
     have hre : ReBase (reenterOf p gas) G E := fun f fs hg =>
-      fr_liftRun (fun s hs => by subst hs; exact ih.2 f s hg)
+      fr_liftRun (fun s hs => by subst hs; exact ih.2.prefix f s hg)
     constructor
     · intro B ip s hB hg hip hat
       rw [exec_loop]
@@ -188,8 +203,12 @@ theorem exec_cfi : ∀ gas, LoopSpec G E p gas ∧ CallSpec G E p gas := by
       split
       · split
         · next a h hget =>
-          have hn := fr_callNative (E := E) (reenterOf p gas) (JInv G s.frames) (hre.spec s.frames) h
-            s.frames ⟨List.prefix_refl _, hg⟩
+          have hreq : ReSpec (reenterOf p gas) (fun fs => fs = s.frames ∧ Good G fs) E := fun f fs hJ =>
+            fr_liftRun (fun s₁ hs => by
+              subst hs
+              exact execPost_mono (ih.2 f s₁ hJ.2) (fun fs h' => ⟨h'.1.trans hJ.1, h'.2⟩))
+          have hn := fr_callNative (E := E) (reenterOf p gas) (fun fs => fs = s.frames ∧ Good G fs) hreq h
+            s.frames ⟨rfl, hg⟩
           split
           · next s' heq => exact hn.ok s () s' rfl heq
           · next e s' heq => exact execPost_failAt _ _ (hn.err s e s' rfl heq)
